@@ -27,6 +27,16 @@ def make_ops():
     }
 
 
+class _AsNode:
+    """a ToNode that is not a Node (what a builder object is to `insert_hugr(..., parent=builder)`)"""
+
+    def __init__(self, node):
+        self._n = node
+
+    def to_node(self):
+        return self._n
+
+
 META = {"none": None, "m": {"k": "v", "n": [1, 2]}, "u": {"ü": None}}
 
 
@@ -98,7 +108,10 @@ class StoreAdapter:
             if a == "InsertHugr":
                 b = self.h[2]
                 before_b = self._snapshot(2)
-                mapping = self.h[1].insert_hugr(b, self.node[1][ev["p"]])
+                parent = self.node[1][ev["p"]]
+                if ev["p"] % 2 == 1:
+                    parent = _AsNode(parent)            # the parent may be any ToNode (a builder, a handle wrapper), not only a Node
+                mapping = self.h[1].insert_hugr(b, parent)
                 inv_b = {n.idx: mid for mid, n in self.node[2].items() if mid not in self.dead[2]}
                 live_b = sorted(inv_b.values())
                 if sorted(inv_b[k.idx] for k in mapping) != live_b:
@@ -108,6 +121,8 @@ class StoreAdapter:
                 for rank, mid_b in enumerate(live_b):
                     real_b = self.node[2][mid_b]
                     new = mapping[real_b]
+                    if dict(new.metadata) != dict(b[real_b].metadata):        # the handles of the mapping carry the copies' metadata
+                        raise ImplError(f"handle returned for the copy of node {mid_b} carries metadata {dict(new.metadata)}, the node has {dict(b[real_b].metadata)}")
                     mid_a = base + rank
                     self.node[1][mid_a] = new
                     self.optok[1][mid_a] = self.optok[2][mid_b]
